@@ -148,6 +148,12 @@ func norm1(v ssa.Value) ssa.Value {
 			return val
 		case *ssa.FreeVar:
 			return freeVarValue1(x)
+		case *ssa.FieldAddr:
+			return structFieldValue(a.X, a.Field)
+		}
+	case *ssa.Field:
+		if ld, ok := aggSource(x.X).(*ssa.UnOp); ok && ld.Op == token.MUL {
+			return structFieldValue(ld.X, x.Field)
 		}
 	}
 	return nil
